@@ -521,6 +521,77 @@ def _memo_vs_request(memo_lists, req_lists, al):
     return True, ""
 
 
+def r7_fit_model_forwards(ctx):
+    """fit_model(preprocessing=..., preprocessing_options=...) forwards the
+    given values; the remembered options are used only when the keyword is
+    absent (not when it is falsy, e.g. an explicit {})."""
+    ind = ctx.repo.mod("indent")
+    fn = ind.func("Indentation.fit_model")
+    ctx.analysed(fn)
+    from ..symres import Resolver
+    R = Resolver(fn)
+    calls = [c for c in calls_in(fn)
+             if call_name(c) == "self.apply_preprocessing"]
+    ctx.floor("apply_preprocessing call in fit_model", len(calls), 1)
+    c = calls[0]
+    kws = {k.arg: k.value for k in c.keywords}
+    if c.args:
+        kws.setdefault("preprocessing", c.args[0])
+        if len(c.args) > 1:
+            kws.setdefault("options", c.args[1])
+    p_ = kws.get("preprocessing")
+    ctx.check(p_ is not None and R.text(p_) == "kwargs['preprocessing']", c,
+              f"steps forwarded: {R.text(p_) if p_ is not None else None}",
+              "fit_model does not forward the given preprocessing steps")
+    o_ = kws.get("options")
+    ot = R.text(o_) if o_ is not None else "None"
+    good = ("kwargs.get('preprocessing_options', self.preprocessing_options)",
+            "kwargs['preprocessing_options'] if 'preprocessing_options' in "
+            "kwargs else self.preprocessing_options")
+    bad_or = o_ is not None and any(isinstance(x, ast.BoolOp) and isinstance(
+        x.op, ast.Or) for x in ast.walk(R.resolve(o_)))
+    ctx.check(ot in good and not bad_or, c, f"options forwarded: {ot[:70]}",
+              "fit_model replaces explicitly given preprocessing options by "
+              "the remembered ones when they are falsy (an explicit {} is "
+              "not the same as 'not given'): the columns then depend on the "
+              "options of an earlier pipeline"
+              if bad_or else
+              "fit_model does not forward the given preprocessing options "
+              "(default: the remembered ones only when the keyword is "
+              "absent)")
+    conds = conditions_at(c)
+    ctx.check(any(a.pol and a.text == "'preprocessing' in kwargs"
+                  for a in conds) and len(conds) == 1, c,
+              "preprocessing applied iff the keyword is given",
+              "fit_model applies preprocessing under a different condition")
+
+
+def r8_remembered_after_success(ctx):
+    """self.preprocessing / self.preprocessing_options are (re)assigned only
+    where preproc.apply can no longer fail."""
+    ind = ctx.repo.mod("indent")
+    fn = ind.func("Indentation.apply_preprocessing")
+    cfg = CFG(fn)
+    applies = {n.id for n in cfg.nodes if any(
+        call_name(c) in ("preproc.apply", "apply")
+        for c in fitrules.node_calls(n))}
+    stores = [n for n in cfg.nodes if n.kind == "stmt"
+              and isinstance(n.ast, ast.Assign)
+              and any(dotted(t) in ("self.preprocessing",
+                                    "self.preprocessing_options")
+                      for t in n.ast.targets)]
+    ctx.floor("stores of the remembered pipeline", len(stores), 2)
+    for st in stores:
+        later = cfg.reach([st.id], skip_labels=("exc",))
+        ctx.check(not (later & applies), st.ast,
+                  f"{norm(st.ast.targets[0])} remembered after the pipeline "
+                  "ran",
+                  f"{norm(st.ast.targets[0])} is assigned before "
+                  "preproc.apply has accepted the request: a rejected "
+                  "request is reported as the curve's preprocessing and is "
+                  "used as default for the next call")
+
+
 RULES = [
     ("C06-R1", "preproc.apply restarts from raw data on every path",
      r1_restart_from_raw),
@@ -533,4 +604,8 @@ RULES = [
      r5_pipeline_deterministic),
     ("C06-R6", "skip-if-unchanged compares both items; arguments forwarded "
      "unchanged", r6_skip_test),
+    ("C06-R7", "fit_model forwards steps and options; remembered options "
+     "only when the keyword is absent", r7_fit_model_forwards),
+    ("C06-R8", "the remembered pipeline attributes are assigned only after "
+     "the pipeline ran", r8_remembered_after_success),
 ]
